@@ -1,18 +1,24 @@
 //! C01 — in-memory graphs/datasets behave like a mathematical set of quads.
 //!
 //! A history is a sequence of request lines on ONE current store (`new` starts a new history):
-//!   new <LD|FD|LG|FG|HD|BD|VD> <16|32>      ins/rem/has <quad>      insall/remall <quad> | <quad> …
-//!   remm/retm/qm <sm> <pm> <om> [<gm>]      all   len   enum <which>   fill <k> <offset>   nterms
+//!   new <kind> <width> [via]                 ins/rem/has <quad>      insall/remall <quad> | <quad> …
+//!   collect <kind> <width> <via> <quad> | …  collectfill <kind> <width> <via> <k>
+//!   remm/retm/qm <sm> <pm> <om> [<gm>]       all   len   enum <which>   fill <k> <offset>   nterms
+//! kinds: LD FD LG FG (sophia_inmem, width 16 | 32 | 64 = index type u16 | u32 | usize),
+//!        HD BD VD = HashSet / BTreeSet / Vec of Spog,  HE BE VE = … of Gspo,  HG BG VG = … of [T; 3]
+//! via:   d = the store type itself, r = reads through `&T` and mutations through `&mut T`,
+//!        m = everything through `&mut T`, s = reads through the slice `[Q]` (Vec stores only)
+//!        (the forwarding impls of api/src/{dataset,graph}/_foreign_impl.rs)
 mod dynm;
 use dynm::*;
-use sophia_api::dataset::{Dataset, MutableDataset};
-use sophia_api::graph::{Graph, MutableGraph};
-use sophia_api::quad::Spog;
-use sophia_api::source::IntoSource;
+use sophia_api::dataset::{CollectibleDataset, Dataset, MutableDataset};
+use sophia_api::graph::{CollectibleGraph, Graph, MutableGraph};
+use sophia_api::quad::{Gspo, Spog};
 use sophia_api::term::matcher::GraphNameMatcher;
-use sophia_api::term::{CmpTerm, SimpleTerm, Term};
-use sophia_inmem::dataset::{FastDataset, LightDataset};
-use sophia_inmem::graph::{FastGraph, LightGraph};
+use sophia_api::term::{CmpTerm, SimpleTerm};
+use sophia_inmem::dataset::{FastDataset, GenericFastDataset, GenericLightDataset, LightDataset};
+use sophia_inmem::graph::{FastGraph, GenericFastGraph, GenericLightGraph, LightGraph};
+use sophia_inmem::index::SimpleTermIndex;
 use std::cell::RefCell;
 use std::collections::{BTreeSet, HashSet};
 use vhcore::tgen::{self, TermGen};
@@ -20,23 +26,41 @@ use vhcore::util::*;
 use vhcore::GenCtx;
 
 type CT = CmpTerm<SimpleTerm<'static>>;
+type LD16 = sophia_inmem::dataset::small::LightDataset;
+type FD16 = sophia_inmem::dataset::small::FastDataset;
+type LG16 = sophia_inmem::graph::small::LightGraph;
+type FG16 = sophia_inmem::graph::small::FastGraph;
+type LD64 = GenericLightDataset<SimpleTermIndex<usize>>;
+type FD64 = GenericFastDataset<SimpleTermIndex<usize>>;
+type LG64 = GenericLightGraph<SimpleTermIndex<usize>>;
+type FG64 = GenericFastGraph<SimpleTermIndex<usize>>;
 
 enum Store {
     LD(LightDataset),
     FD(FastDataset),
-    LD16(sophia_inmem::dataset::small::LightDataset),
-    FD16(sophia_inmem::dataset::small::FastDataset),
+    LD16(LD16),
+    FD16(FD16),
+    LD64(LD64),
+    FD64(FD64),
     LG(LightGraph),
     FG(FastGraph),
-    LG16(sophia_inmem::graph::small::LightGraph),
-    FG16(sophia_inmem::graph::small::FastGraph),
+    LG16(LG16),
+    FG16(FG16),
+    LG64(LG64),
+    FG64(FG64),
     HD(HashSet<Spog<ST>>),
     BD(BTreeSet<Spog<CT>>),
     VD(Vec<Spog<ST>>),
+    HE(HashSet<Gspo<ST>>),
+    BE(BTreeSet<Gspo<CT>>),
+    VE(Vec<Gspo<ST>>),
+    HG(HashSet<[ST; 3]>),
+    BG(BTreeSet<[CT; 3]>),
+    VG(Vec<[ST; 3]>),
 }
 
 thread_local! {
-    static CUR: RefCell<Option<Store>> = const { RefCell::new(None) };
+    static CUR: RefCell<Option<(Store, u8)>> = const { RefCell::new(None) };
 }
 
 macro_rules! on_dataset {
@@ -46,9 +70,14 @@ macro_rules! on_dataset {
             Store::FD($d) => $body,
             Store::LD16($d) => $body,
             Store::FD16($d) => $body,
+            Store::LD64($d) => $body,
+            Store::FD64($d) => $body,
             Store::HD($d) => $body,
             Store::BD($d) => $body,
             Store::VD($d) => $body,
+            Store::HE($d) => $body,
+            Store::BE($d) => $body,
+            Store::VE($d) => $body,
             _ => $other,
         }
     };
@@ -60,13 +89,51 @@ macro_rules! on_graph {
             Store::FG($g) => $body,
             Store::LG16($g) => $body,
             Store::FG16($g) => $body,
+            Store::LG64($g) => $body,
+            Store::FG64($g) => $body,
+            Store::HG($g) => $body,
+            Store::BG($g) => $body,
+            Store::VG($g) => $body,
             _ => $other,
         }
     };
 }
+/// `$body` sees `$d : &X` where X is the store type, `&Store` (impl … for &T) or `&mut Store`
+/// (impl … for &mut T), or the slice `[Q]` of a Vec store, according to `via`
+macro_rules! read_via {
+    (on_dataset, $st:expr, $via:expr, $d:ident => $body:expr, else $other:expr) => {
+        match ($via, &mut *$st) {
+            (3, Store::VD(v)) => { let $d = &v[..]; $body }
+            (3, Store::VE(v)) => { let $d = &v[..]; $body }
+            (via, st) => read_via!(@fwd on_dataset, st, via, $d => $body, else $other),
+        }
+    };
+    (on_graph, $st:expr, $via:expr, $d:ident => $body:expr, else $other:expr) => {
+        match ($via, &mut *$st) {
+            (3, Store::VG(v)) => { let $d = &v[..]; $body }
+            (via, st) => read_via!(@fwd on_graph, st, via, $d => $body, else $other),
+        }
+    };
+    (@fwd $on:ident, $st:expr, $via:expr, $d:ident => $body:expr, else $other:expr) => {
+        $on!($st, dd => match $via {
+            1 => { let $d = &&*dd; $body }
+            2 => { let $d = &&mut *dd; $body }
+            _ => { let $d = &*dd; $body }
+        }, else $other)
+    };
+}
+/// `$body` sees `$d : &mut X` where X is the store type or `&mut Store`
+macro_rules! mut_via {
+    ($on:ident, $st:expr, $via:expr, $d:ident => $body:expr, else $other:expr) => {
+        $on!(&mut *$st, dd => match $via {
+            1 | 2 => { let mut r = &mut *dd; let $d = &mut r; $body }
+            _ => { let $d = &mut *dd; $body }
+        }, else $other)
+    };
+}
 
 fn is_graph(s: &Store) -> bool {
-    matches!(s, Store::LG(_) | Store::FG(_) | Store::LG16(_) | Store::FG16(_))
+    on_graph!(s, _g => true, else false)
 }
 
 fn b(x: bool) -> &'static str {
@@ -109,35 +176,159 @@ fn sq(q: &Q) -> SQ {
     tgen::q_to_simple(q)
 }
 
-fn all_quads(st: &Store) -> Vec<Q> {
-    on_dataset!(st, d => d.quads().map(|q| tgen::view_quad(q.unwrap())).collect(),
-        else on_graph!(st, g => g.triples().map(|t| tgen::view_triple(t.unwrap())).collect(), else vec![]))
+fn via_code(s: Option<&str>) -> Option<u8> {
+    Some(match s {
+        None | Some("d") => 0,
+        Some("r") => 1,
+        Some("m") => 2,
+        Some("s") => 3,
+        _ => return None,
+    })
+}
+
+fn new_store(kind: &str, width: &str) -> Option<Store> {
+    Some(match (kind, width) {
+        ("LD", "32") => Store::LD(LightDataset::new()),
+        ("FD", "32") => Store::FD(FastDataset::new()),
+        ("LD", "16") => Store::LD16(LD16::new()),
+        ("FD", "16") => Store::FD16(FD16::new()),
+        ("LD", "64") => Store::LD64(LD64::new()),
+        ("FD", "64") => Store::FD64(FD64::new()),
+        ("LG", "32") => Store::LG(LightGraph::new()),
+        ("FG", "32") => Store::FG(FastGraph::new()),
+        ("LG", "16") => Store::LG16(LG16::new()),
+        ("FG", "16") => Store::FG16(FG16::new()),
+        ("LG", "64") => Store::LG64(LG64::new()),
+        ("FG", "64") => Store::FG64(FG64::new()),
+        ("HD", _) => Store::HD(HashSet::new()),
+        ("BD", _) => Store::BD(BTreeSet::new()),
+        ("VD", _) => Store::VD(Vec::new()),
+        ("HE", _) => Store::HE(HashSet::new()),
+        ("BE", _) => Store::BE(BTreeSet::new()),
+        ("VE", _) => Store::VE(Vec::new()),
+        ("HG", _) => Store::HG(HashSet::new()),
+        ("BG", _) => Store::BG(BTreeSet::new()),
+        ("VG", _) => Store::VG(Vec::new()),
+        _ => return None,
+    })
+}
+
+/// `CollectibleDataset::from_quad_source` / `CollectibleGraph::from_triple_source`; `Err(())` = sink error
+fn collect_store(kind: &str, width: &str, qs: Vec<SQ>, k: Option<usize>) -> Option<Result<Store, &'static str>> {
+    macro_rules! cd { ($t:ty, $v:path) => { <$t>::from_quad_source(failing(qs, k)).map($v).map_err(|e| if e.is_sink_error() { "full" } else { "srcerr" }) } }
+    macro_rules! cg { ($t:ty, $v:path) => { <$t>::from_triple_source(failing(qs.into_iter().map(|(spo, _)| spo).collect::<Vec<_>>(), k)).map($v).map_err(|e| if e.is_sink_error() { "full" } else { "srcerr" }) } }
+    Some(match (kind, width) {
+        ("LD", "32") => cd!(LightDataset, Store::LD),
+        ("FD", "32") => cd!(FastDataset, Store::FD),
+        ("LD", "16") => cd!(LD16, Store::LD16),
+        ("FD", "16") => cd!(FD16, Store::FD16),
+        ("LD", "64") => cd!(LD64, Store::LD64),
+        ("FD", "64") => cd!(FD64, Store::FD64),
+        ("LG", "32") => cg!(LightGraph, Store::LG),
+        ("FG", "32") => cg!(FastGraph, Store::FG),
+        ("LG", "16") => cg!(LG16, Store::LG16),
+        ("FG", "16") => cg!(FG16, Store::FG16),
+        ("LG", "64") => cg!(LG64, Store::LG64),
+        ("FG", "64") => cg!(FG64, Store::FG64),
+        ("HD", _) => cd!(HashSet<Spog<ST>>, Store::HD),
+        ("BD", _) => cd!(BTreeSet<Spog<CT>>, Store::BD),
+        ("VD", _) => cd!(Vec<Spog<ST>>, Store::VD),
+        ("HE", _) => cd!(HashSet<Gspo<ST>>, Store::HE),
+        ("BE", _) => cd!(BTreeSet<Gspo<CT>>, Store::BE),
+        ("VE", _) => cd!(Vec<Gspo<ST>>, Store::VE),
+        ("HG", _) => cg!(HashSet<[ST; 3]>, Store::HG),
+        ("BG", _) => cg!(BTreeSet<[CT; 3]>, Store::BG),
+        ("VG", _) => cg!(Vec<[ST; 3]>, Store::VG),
+        _ => return None,
+    })
+}
+
+/// a source that yields the first `k` items and then fails
+#[derive(Debug)]
+struct SrcErr;
+impl std::fmt::Display for SrcErr {
+    fn fmt(&self, f: &mut std::fmt::Formatter<'_>) -> std::fmt::Result {
+        write!(f, "source error")
+    }
+}
+impl std::error::Error for SrcErr {}
+fn failing<X>(v: Vec<X>, k: Option<usize>) -> impl Iterator<Item = Result<X, SrcErr>> {
+    let n = v.len();
+    let k = k.unwrap_or(n).min(n);
+    let fail = k < n;
+    v.into_iter().take(k).map(Ok).chain((if fail { Some(Err(SrcErr)) } else { None }).into_iter())
+}
+/// outcome of a bulk operation: the count, the sink's error (`full`) or the source's (`srcerr`)
+fn bulk<E1, E2>(r: Result<usize, sophia_api::source::StreamError<E1, E2>>) -> String
+where
+    E1: std::error::Error + Send + Sync + 'static,
+    E2: std::error::Error + Send + Sync + 'static,
+{
+    match r {
+        Ok(n) => format!("n={}", n),
+        Err(e) if e.is_sink_error() => "n=full".into(),
+        Err(_) => "n=srcerr".into(),
+    }
+}
+
+fn store_len(st: &mut Store) -> usize {
+    on_dataset!(st, d => d.quads().count(), else on_graph!(st, g => g.triples().count(), else 0))
+}
+
+fn fill_quad(i: usize) -> SQ {
+    (
+        [tgen::to_simple(&T::Iri("x:s".into())), tgen::to_simple(&T::Iri("x:p".into())), tgen::to_simple(&T::Lit(i.to_string(), "x:fill".into()))],
+        None,
+    )
 }
 
 pub fn exec(line: &str) -> String {
     let (op, rest) = line.split_once(' ').unwrap_or((line, ""));
     if op == "new" {
         let f: Vec<&str> = rest.split_whitespace().collect();
-        let st = match (f[0], f[1]) {
-            ("LD", "32") => Store::LD(LightDataset::new()),
-            ("FD", "32") => Store::FD(FastDataset::new()),
-            ("LD", "16") => Store::LD16(sophia_inmem::dataset::small::LightDataset::new()),
-            ("FD", "16") => Store::FD16(sophia_inmem::dataset::small::FastDataset::new()),
-            ("LG", "32") => Store::LG(LightGraph::new()),
-            ("FG", "32") => Store::FG(FastGraph::new()),
-            ("LG", "16") => Store::LG16(sophia_inmem::graph::small::LightGraph::new()),
-            ("FG", "16") => Store::FG16(sophia_inmem::graph::small::FastGraph::new()),
-            ("HD", _) => Store::HD(HashSet::new()),
-            ("BD", _) => Store::BD(BTreeSet::new()),
-            ("VD", _) => Store::VD(Vec::new()),
-            _ => return "bad-op".into(),
-        };
-        CUR.with(|c| *c.borrow_mut() = Some(st));
+        if f.len() < 2 {
+            return "bad-op".into();
+        }
+        let (Some(st), Some(via)) = (new_store(f[0], f[1]), via_code(f.get(2).copied())) else { return "bad-op".into() };
+        CUR.with(|c| *c.borrow_mut() = Some((st, via)));
         return "ok=1".into();
+    }
+    if op == "collect" || op == "collectx" || op == "collectfill" {
+        let mut it = rest.splitn(if op == "collectx" { 5 } else { 4 }, ' ');
+        let (Some(kind), Some(width), Some(via)) = (it.next(), it.next(), it.next()) else { return "bad-op".into() };
+        let Some(via) = via_code(Some(via)) else { return "bad-op".into() };
+        let k: Option<usize> = if op == "collectx" {
+            let Some(Ok(k)) = it.next().map(|k| k.parse::<usize>()) else { return "bad-op".into() };
+            Some(k)
+        } else {
+            None
+        };
+        let tail = it.next().unwrap_or("");
+        let sqs: Vec<SQ> = if op != "collectfill" {
+            let Some(qs) = parse_quads(tail) else { return "bad-op".into() };
+            qs.iter().map(sq).collect()
+        } else {
+            let Ok(k) = tail.trim().parse::<usize>() else { return "bad-op".into() };
+            (0..k).map(fill_quad).collect()
+        };
+        let Some(r) = collect_store(kind, width, sqs, k) else { return "bad-op".into() };
+        return match r {
+            Ok(mut st) => {
+                let n = store_len(&mut st);
+                CUR.with(|c| *c.borrow_mut() = Some((st, via)));
+                format!("n={}", n)
+            }
+            Err(why) => {
+                // the half-built store is dropped by the library: go on with a fresh empty one
+                CUR.with(|c| *c.borrow_mut() = new_store(kind, width).map(|st| (st, via)));
+                format!("n={}", why)
+            }
+        };
     }
     CUR.with(|c| {
         let mut guard = c.borrow_mut();
-        let Some(st) = guard.as_mut() else { return "bad-op".to_string() };
+        let Some((st, via)) = guard.as_mut() else { return "bad-op".to_string() };
+        let via = *via;
         let graph = is_graph(st);
         match op {
             "ins" | "rem" | "has" => {
@@ -145,36 +336,40 @@ pub fn exec(line: &str) -> String {
                 let (spo, g) = sq(&q);
                 let [s, p, o] = spo;
                 let r: Result<bool, ()> = match op {
-                    "ins" => on_dataset!(st, d => MutableDataset::insert(d, &s, &p, &o, g.as_ref()).map_err(|_| ()),
-                        else on_graph!(st, gr => MutableGraph::insert(gr, &s, &p, &o).map_err(|_| ()), else Err(()))),
-                    "rem" => on_dataset!(st, d => MutableDataset::remove(d, &s, &p, &o, g.as_ref()).map_err(|_| ()),
-                        else on_graph!(st, gr => MutableGraph::remove(gr, &s, &p, &o).map_err(|_| ()), else Err(()))),
-                    _ => on_dataset!(st, d => Dataset::contains(d, &s, &p, &o, g.as_ref()).map_err(|_| ()),
-                        else on_graph!(st, gr => Graph::contains(gr, &s, &p, &o).map_err(|_| ()), else Err(()))),
+                    "ins" => mut_via!(on_dataset, st, via, d => MutableDataset::insert(d, &s, &p, &o, g.as_ref()).map_err(|_| ()),
+                        else mut_via!(on_graph, st, via, gr => MutableGraph::insert(gr, &s, &p, &o).map_err(|_| ()), else Err(()))),
+                    "rem" => mut_via!(on_dataset, st, via, d => MutableDataset::remove(d, &s, &p, &o, g.as_ref()).map_err(|_| ()),
+                        else mut_via!(on_graph, st, via, gr => MutableGraph::remove(gr, &s, &p, &o).map_err(|_| ()), else Err(()))),
+                    _ => read_via!(on_dataset, st, via, d => Dataset::contains(d, &s, &p, &o, g.as_ref()).map_err(|_| ()),
+                        else read_via!(on_graph, st, via, gr => Graph::contains(gr, &s, &p, &o).map_err(|_| ()), else Err(()))),
                 };
                 match r {
                     Ok(x) => format!("r={}", b(x)),
                     Err(()) => "r=full".into(),
                 }
             }
-            "insall" | "remall" => {
+            "insall" | "remall" | "insallx" | "remallx" => {
+                let (k, rest) = if op.ends_with('x') {
+                    let Some((k, r)) = rest.split_once(' ') else { return "bad-op".into() };
+                    let Ok(k) = k.parse::<usize>() else { return "bad-op".into() };
+                    (Some(k), r)
+                } else {
+                    (None, rest)
+                };
                 let Some(qs) = parse_quads(rest) else { return "bad-op".into() };
                 let sqs: Vec<SQ> = qs.iter().map(sq).collect();
-                let r: Result<usize, ()> = if graph {
+                let ins = op.starts_with("ins");
+                if graph {
                     let ts: Vec<[ST; 3]> = sqs.into_iter().map(|(spo, _)| spo).collect();
-                    if op == "insall" {
-                        on_graph!(st, gr => gr.insert_all(ts.into_iter().into_source()).map_err(|_| ()), else Err(()))
+                    if ins {
+                        mut_via!(on_graph, st, via, gr => bulk(MutableGraph::insert_all(gr, failing(ts, k))), else "bad-op".into())
                     } else {
-                        on_graph!(st, gr => gr.remove_all(ts.into_iter().into_source()).map_err(|_| ()), else Err(()))
+                        mut_via!(on_graph, st, via, gr => bulk(MutableGraph::remove_all(gr, failing(ts, k))), else "bad-op".into())
                     }
-                } else if op == "insall" {
-                    on_dataset!(st, d => d.insert_all(sqs.into_iter().into_source()).map_err(|_| ()), else Err(()))
+                } else if ins {
+                    mut_via!(on_dataset, st, via, d => bulk(MutableDataset::insert_all(d, failing(sqs, k))), else "bad-op".into())
                 } else {
-                    on_dataset!(st, d => d.remove_all(sqs.into_iter().into_source()).map_err(|_| ()), else Err(()))
-                };
-                match r {
-                    Ok(n) => format!("n={}", n),
-                    Err(()) => "n=full".into(),
+                    mut_via!(on_dataset, st, via, d => bulk(MutableDataset::remove_all(d, failing(sqs, k))), else "bad-op".into())
                 }
             }
             "qm" | "remm" | "retm" => {
@@ -188,16 +383,22 @@ pub fn exec(line: &str) -> String {
                     }
                     match op {
                         "qm" => {
-                            let v: Vec<String> = on_graph!(st, gr => gr.triples_matching(DMRef(&sm), DMRef(&pm), DMRef(&om))
+                            let v: Vec<String> = read_via!(on_graph, st, via, gr => Graph::triples_matching(gr, DMRef(&sm), DMRef(&pm), DMRef(&om))
                                 .map(|t| render_q(&tgen::view_triple(t.unwrap()), true)).collect(), else vec![]);
-                            format!("n={} quads={}", v.len(), render_qs(v))
+                            // the contract of `constant()` on the terms at hand
+                            let all: Vec<SQ> = on_graph!(&mut *st, gr => gr.triples().map(|t| sq(&tgen::view_triple(t.unwrap()))).collect(), else vec![]);
+                            let bad = [(&sm, 0), (&pm, 1), (&om, 2)].iter().find_map(|(m, i)| tm_constant_unsound(m, all.iter().map(|q| &q.0[*i])));
+                            match bad {
+                                Some(why) => format!("n={} quads={} FAIL.constant_unsound={}", v.len(), render_qs(v), hex(&why)),
+                                None => format!("n={} quads={}", v.len(), render_qs(v)),
+                            }
                         }
                         "remm" => {
-                            let r = on_graph!(st, gr => gr.remove_matching(DMRef(&sm), DMRef(&pm), DMRef(&om)).map_err(|_| ()), else Err(()));
+                            let r = mut_via!(on_graph, st, via, gr => MutableGraph::remove_matching(gr, DMRef(&sm), DMRef(&pm), DMRef(&om)).map_err(|_| ()), else Err(()));
                             match r { Ok(n) => format!("n={}", n), Err(()) => "n=err".into() }
                         }
                         _ => {
-                            let r = on_graph!(st, gr => gr.retain_matching(DMRef(&sm), DMRef(&pm), DMRef(&om)).map_err(|_| ()), else Err(()));
+                            let r = mut_via!(on_graph, st, via, gr => MutableGraph::retain_matching(gr, DMRef(&sm), DMRef(&pm), DMRef(&om)).map_err(|_| ()), else Err(()));
                             match r { Ok(()) => "ok=1".into(), Err(()) => "ok=err".into() }
                         }
                     }
@@ -208,39 +409,46 @@ pub fn exec(line: &str) -> String {
                     }
                     match op {
                         "qm" => {
-                            let v: Vec<String> = on_dataset!(st, d => d.quads_matching(DMRef(&sm), DMRef(&pm), DMRef(&om), GraphNameMatcher::matcher_ref(&gm))
+                            let v: Vec<String> = read_via!(on_dataset, st, via, d => Dataset::quads_matching(d, DMRef(&sm), DMRef(&pm), DMRef(&om), GraphNameMatcher::matcher_ref(&gm))
                                 .map(|q| render_q(&tgen::view_quad(q.unwrap()), false)).collect(), else vec![]);
-                            format!("n={} quads={}", v.len(), render_qs(v))
+                            let all: Vec<SQ> = on_dataset!(&mut *st, d => d.quads().map(|q| sq(&tgen::view_quad(q.unwrap()))).collect(), else vec![]);
+                            let bad = [(&sm, 0), (&pm, 1), (&om, 2)].iter().find_map(|(m, i)| tm_constant_unsound(m, all.iter().map(|q| &q.0[*i])))
+                                .or_else(|| gm_constant_unsound(&gm, all.iter().map(|q| q.1.as_ref())));
+                            match bad {
+                                Some(why) => format!("n={} quads={} FAIL.constant_unsound={}", v.len(), render_qs(v), hex(&why)),
+                                None => format!("n={} quads={}", v.len(), render_qs(v)),
+                            }
                         }
                         "remm" => {
-                            let r = on_dataset!(st, d => d.remove_matching(DMRef(&sm), DMRef(&pm), DMRef(&om), GraphNameMatcher::matcher_ref(&gm)).map_err(|_| ()), else Err(()));
+                            let r = mut_via!(on_dataset, st, via, d => MutableDataset::remove_matching(d, DMRef(&sm), DMRef(&pm), DMRef(&om), GraphNameMatcher::matcher_ref(&gm)).map_err(|_| ()), else Err(()));
                             match r { Ok(n) => format!("n={}", n), Err(()) => "n=err".into() }
                         }
                         _ => {
-                            let r = on_dataset!(st, d => d.retain_matching(DMRef(&sm), DMRef(&pm), DMRef(&om), GraphNameMatcher::matcher_ref(&gm)).map_err(|_| ()), else Err(()));
+                            let r = mut_via!(on_dataset, st, via, d => MutableDataset::retain_matching(d, DMRef(&sm), DMRef(&pm), DMRef(&om), GraphNameMatcher::matcher_ref(&gm)).map_err(|_| ()), else Err(()));
                             match r { Ok(()) => "ok=1".into(), Err(()) => "ok=err".into() }
                         }
                     }
                 }
             }
             "all" => {
-                let v: Vec<String> = all_quads(st).iter().map(|q| render_q(q, graph)).collect();
+                let v: Vec<String> = read_via!(on_dataset, st, via, d => Dataset::quads(d).map(|q| render_q(&tgen::view_quad(q.unwrap()), false)).collect(),
+                    else read_via!(on_graph, st, via, g => Graph::triples(g).map(|t| render_q(&tgen::view_triple(t.unwrap()), true)).collect(), else vec![]));
                 format!("n={} quads={}", v.len(), render_qs(v))
             }
             "len" => {
-                let n = on_dataset!(st, d => d.quads().count(), else on_graph!(st, g => g.triples().count(), else 0));
+                let n = read_via!(on_dataset, st, via, d => Dataset::quads(d).count(), else read_via!(on_graph, st, via, g => Graph::triples(g).count(), else 0));
                 format!("n={}", n)
             }
             "enum" => {
                 macro_rules! en { ($m:ident) => {
-                    on_dataset!(st, d => d.$m().map(|t| tgen::view(t.unwrap())).collect::<Vec<T>>(),
-                        else on_graph!(st, g => g.$m().map(|t| tgen::view(t.unwrap())).collect::<Vec<T>>(), else vec![]))
+                    read_via!(on_dataset, st, via, d => Dataset::$m(d).map(|t| tgen::view(t.unwrap())).collect::<Vec<T>>(),
+                        else read_via!(on_graph, st, via, g => Graph::$m(g).map(|t| tgen::view(t.unwrap())).collect::<Vec<T>>(), else vec![]))
                 } }
                 let v: Vec<T> = match rest.trim() {
                     "subjects" => en!(subjects),
                     "predicates" => en!(predicates),
                     "objects" => en!(objects),
-                    "graphs" => on_dataset!(st, d => d.graph_names().map(|t| tgen::view(t.unwrap())).collect(), else vec![]),
+                    "graphs" => read_via!(on_dataset, st, via, d => Dataset::graph_names(d).map(|t| tgen::view(t.unwrap())).collect(), else vec![]),
                     "iris" => en!(iris),
                     "bnodes" => en!(blank_nodes),
                     "literals" => en!(literals),
@@ -254,12 +462,10 @@ pub fn exec(line: &str) -> String {
                 let f: Vec<&str> = rest.split_whitespace().collect();
                 let (k, off): (usize, usize) = (f[0].parse().unwrap(), f[1].parse().unwrap());
                 let mut n = 0;
-                let s = tgen::to_simple(&T::Iri("x:s".into()));
-                let p = tgen::to_simple(&T::Iri("x:p".into()));
                 for i in 0..k {
-                    let o = tgen::to_simple(&T::Lit((i + off).to_string(), "x:fill".into()));
-                    let r: Result<bool, ()> = on_dataset!(st, d => MutableDataset::insert(d, &s, &p, &o, None::<&ST>).map_err(|_| ()),
-                        else on_graph!(st, gr => MutableGraph::insert(gr, &s, &p, &o).map_err(|_| ()), else Err(())));
+                    let ([s, p, o], _) = fill_quad(i + off);
+                    let r: Result<bool, ()> = mut_via!(on_dataset, st, via, d => MutableDataset::insert(d, &s, &p, &o, None::<&ST>).map_err(|_| ()),
+                        else mut_via!(on_graph, st, via, gr => MutableGraph::insert(gr, &s, &p, &o).map_err(|_| ()), else Err(())));
                     match r {
                         Ok(true) => n += 1,
                         Ok(false) => {}
@@ -466,58 +672,138 @@ fn gen_pat(g: &TermGen, r: &mut Rng, graph: bool, stats: &mut Stats, pool: &[Q])
     parts.join(" ")
 }
 
+const KINDS: &[(&str, &str)] = &[
+    ("LD", "32"), ("FD", "32"), ("LD", "16"), ("FD", "16"), ("LD", "64"), ("FD", "64"),
+    ("LG", "32"), ("FG", "32"), ("LG", "16"), ("FG", "16"), ("LG", "64"), ("FG", "64"),
+    ("HD", "0"), ("BD", "0"), ("VD", "0"), ("HE", "0"), ("BE", "0"), ("VE", "0"), ("HG", "0"), ("BG", "0"), ("VG", "0"),
+];
+
+fn size_bucket(n: usize) -> &'static str {
+    match n {
+        0 => "0",
+        1..=4 => "1-4",
+        5..=24 => "5-24",
+        25..=99 => "25-99",
+        _ => "100+",
+    }
+}
+
+/// emit a request and run it on the real store right away (same process, same thread-local store),
+/// only to MEASURE what the generated histories reach: store sizes, result sizes, flags
+fn emit_run(ctx: &mut GenCtx, line: &str) {
+    ctx.emit(line);
+    let op = line.split(' ').next().unwrap_or("");
+    let reply = catch(std::panic::AssertUnwindSafe(|| exec(line))).unwrap_or_default();
+    let field = |k: &str| reply.split(' ').find_map(|t| t.strip_prefix(k)).map(|v| v.to_string());
+    match op {
+        "all" | "qm" => {
+            if let Some(n) = field("n=").and_then(|v| v.parse::<usize>().ok()) {
+                ctx.stats.bump(&format!("{}.{}", if op == "all" { "store_size" } else { "result_size" }, size_bucket(n)));
+            }
+        }
+        "ins" | "rem" | "has" => {
+            if let Some(r) = field("r=") {
+                ctx.stats.bump(&format!("flag.{}.{}", op, r));
+            }
+        }
+        "remm" | "insall" | "remall" | "insallx" | "remallx" | "collect" | "collectx" | "collectfill" => {
+            if let Some(n) = field("n=") {
+                ctx.stats.bump(&format!("count.{}.{}", op, n.parse::<usize>().map(size_bucket).unwrap_or(if n == "srcerr" { "srcerr" } else { "full" })));
+            }
+        }
+        _ => {}
+    }
+}
+
 pub fn generate(ctx: &mut GenCtx) {
-    let mut g = TermGen::default();
-    // fewer distinct terms => more collisions between quads
-    g.iris.truncate(4);
-    g.lexicals.truncate(5);
-    let kinds: &[(&str, &str)] = &[
-        ("LD", "32"), ("FD", "32"), ("LD", "16"), ("FD", "16"), ("LG", "32"), ("FG", "32"), ("LG", "16"), ("FG", "16"),
-        ("HD", "0"), ("BD", "0"), ("VD", "0"),
-    ];
-    let histories = if ctx.thorough { 600 } else { 90 };
-    let maxlen = if ctx.thorough { 150 } else { 70 };
+    let histories = if ctx.thorough { 2520 } else { 126 };
     for h in 0..histories {
-        let (kind, width) = kinds[h % kinds.len()];
+        let (kind, width) = KINDS[h % KINDS.len()];
         let graph = kind.ends_with('G');
-        let vec_like = kind == "VD";
-        ctx.emit(&format!("new {} {}", kind, width));
+        let vec_like = kind.starts_with('V');
+        // two profiles: "small" = few distinct terms (collisions, duplicates, small stores), "big" = the full
+        // alphabets, insert-heavy: stores of 50..150 quads with > 9 distinct terms per position
+        let big = (h / KINDS.len()) % 3 == 2;
+        let mut g = TermGen::default();
+        if big {
+            for i in 0..6 {
+                g.iris.push(format!("http://ex.org/n{}", i));
+                g.bnodes.push(format!("n{}", i));
+            }
+        } else {
+            g.iris.truncate(4);
+            g.lexicals.truncate(5);
+        }
+        ctx.stats.bump(if big { "profile.big" } else { "profile.small" });
+        // through which impl the store is called: the type itself, `&T` / `&mut T`, the slice `[Q]`
+        let via = match ctx.rng.below(10) {
+            0..=2 => "d",
+            3..=5 => "r",
+            6..=7 => "m",
+            _ => if vec_like { "s" } else { "d" },
+        };
+        ctx.stats.bump(&format!("via.{}", via));
         ctx.stats.bump(&format!("store.{}{}", kind, width));
         let generalized = h % 3 != 0;
         let mut pool: Vec<Q> = vec![];
-        let n = ctx.rng.range(15, maxlen);
-        for _ in 0..n {
-            let mut q = if generalized { g.any_quad(&mut ctx.rng) } else { g.strict_quad(&mut ctx.rng) };
-            if graph {
-                q.g = None;
-            }
+        let mk_quad = |g: &TermGen, r: &mut Rng, stats: &mut Stats, pool: &[Q]| -> Q {
+            let mut q = if generalized { g.any_quad(r) } else { g.strict_quad(r) };
             // the same term in several positions of one quad (s = p, p = o, s = g …): per-position
             // caches keyed by index must not be confused by equal indexes in different positions
-            if generalized && ctx.rng.chance(1, 4) {
-                match ctx.rng.below(if graph { 3 } else { 5 }) {
+            if generalized && r.chance(1, 4) {
+                match r.below(if graph { 3 } else { 5 }) {
                     0 => q.p = q.s.clone(),
                     1 => q.o = q.p.clone(),
                     2 => q.o = q.s.clone(),
                     3 => q.g = Some(q.s.clone()),
                     _ => q.g = Some(q.o.clone()),
                 }
-                ctx.stats.bump("same_term_two_positions");
+                stats.bump("same_term_two_positions");
             }
             // re-use known quads often (duplicates, removal of present quads)
-            if !pool.is_empty() && ctx.rng.chance(2, 5) {
-                q = ctx.rng.pick(&pool).clone();
+            if !pool.is_empty() && r.chance(if big { 1 } else { 2 }, 5) {
+                q = r.pick(pool).clone();
                 // … sometimes with a case-variant tag (must collide in the term index)
                 if let T::Lang(l, t) = &q.o {
-                    if ctx.rng.chance(1, 2) {
+                    if r.chance(1, 2) {
                         q.o = T::Lang(l.clone(), if t.chars().any(|c| c.is_ascii_uppercase()) { t.to_lowercase() } else { t.to_uppercase() });
-                        ctx.stats.bump("case_variant_tag");
+                        stats.bump("case_variant_tag");
                     }
                 }
             }
-            let op = ctx.rng.below(if vec_like { 16 } else { 40 });
+            if graph {
+                q.g = None;
+            }
+            q
+        };
+        // a history starts with an empty store or with one collected from a source (duplicates included)
+        if ctx.rng.chance(1, 3) {
+            let k = ctx.rng.range(0, if big { 30 } else { 8 });
+            let mut v = vec![];
+            for _ in 0..k {
+                let q = mk_quad(&g, &mut ctx.rng, &mut ctx.stats, &pool);
+                pool.push(q.clone());
+                v.push(q.render());
+            }
+            if !v.is_empty() && ctx.rng.chance(1, 5) {
+                // the source fails: no store is built
+                ctx.stats.bump("op.collectx");
+                pool.clear();
+                let k = ctx.rng.below(v.len());
+                emit_run(ctx, &format!("collectx {} {} {} {} {}", kind, width, via, k, v.join(" | ")));
+            } else {
+                ctx.stats.bump("op.collect");
+                emit_run(ctx, &format!("collect {} {} {} {}", kind, width, via, v.join(" | ")));
+            }
+        } else {
+            emit_run(ctx, &format!("new {} {} {}", kind, width, via));
+        }
+        let n = if big { ctx.rng.range(80, if ctx.thorough { 260 } else { 160 }) } else { ctx.rng.range(15, if ctx.thorough { 150 } else { 70 }) };
+        for _ in 0..n {
+            let q = mk_quad(&g, &mut ctx.rng, &mut ctx.stats, &pool);
+            let op = ctx.rng.below(if big { 48 } else { 41 });
             let line = match op {
-                0..=15 if vec_like && op >= 14 => "all".to_string(),
-                0..=13 => {
+                0..=13 | 41..=47 => {
                     pool.push(q.clone());
                     format!("ins {}", q.render())
                 }
@@ -535,7 +821,12 @@ pub fn generate(ctx: &mut GenCtx) {
                         pool.push(q2.clone());
                         v.push(q2.render());
                     }
-                    format!("insall {}", v.join(" | "))
+                    // sometimes the source fails after k quads: those before the failure must be in
+                    if !v.is_empty() && ctx.rng.chance(1, 4) {
+                        format!("insallx {} {}", ctx.rng.below(v.len()), v.join(" | "))
+                    } else {
+                        format!("insall {}", v.join(" | "))
+                    }
                 }
                 24 => {
                     let k = ctx.rng.range(0, 3);
@@ -547,25 +838,42 @@ pub fn generate(ctx: &mut GenCtx) {
                         }
                         v.push(q2.render());
                     }
-                    format!("remall {}", v.join(" | "))
+                    if !v.is_empty() && ctx.rng.chance(1, 4) {
+                        format!("remallx {} {}", ctx.rng.below(v.len()), v.join(" | "))
+                    } else {
+                        format!("remall {}", v.join(" | "))
+                    }
                 }
                 25..=35 => format!("qm {}", gen_pat(&g, &mut ctx.rng, graph, &mut ctx.stats, &pool)),
                 36 => format!("remm {}", gen_pat(&g, &mut ctx.rng, graph, &mut ctx.stats, &pool)),
                 // retain_matching with a negated narrow pattern keeps most of the store
-                37 => if ctx.rng.chance(1, 3) { format!("retm {}", gen_pat(&g, &mut ctx.rng, graph, &mut ctx.stats, &pool)) } else {
+                37 => if ctx.rng.chance(1, 3) && !big { format!("retm {}", gen_pat(&g, &mut ctx.rng, graph, &mut ctx.stats, &pool)) } else {
                     let victim = if pool.is_empty() { g.iri(&mut ctx.rng) } else { ctx.rng.pick(&pool).o.clone() };
                     format!("retm A A ! O {}{}", victim.render(), if graph { "" } else { " GA" })
                 },
-                38 => format!("enum {}", ctx.rng.pick(&["subjects", "predicates", "objects", "graphs", "iris", "bnodes", "literals", "vars", "qtriples"])),
-                _ => "len".to_string(),
+                38 | 39 => format!("enum {}", ctx.rng.pick(&["subjects", "predicates", "objects", "graphs", "iris", "bnodes", "literals", "vars", "qtriples"])),
+                _ => {
+                    // rebuild the store from a source made of (part of) what was inserted so far
+                    if ctx.rng.chance(1, 3) {
+                        let k = ctx.rng.range(0, 10).min(pool.len());
+                        let v: Vec<Q> = (0..k).map(|_| ctx.rng.pick(&pool).clone()).collect();
+                        pool = v.clone();
+                        format!("collect {} {} {} {}", kind, width, via, v.iter().map(|q| q.render()).collect::<Vec<_>>().join(" | "))
+                    } else {
+                        "len".to_string()
+                    }
+                }
             };
             let opname = line.split(' ').next().unwrap().to_string();
             ctx.stats.bump(&format!("op.{}", opname));
-            ctx.emit(&line);
+            if vec_like {
+                ctx.stats.bump(&format!("vec_op.{}", opname));
+            }
+            emit_run(ctx, &line);
         }
-        ctx.emit("all");
+        emit_run(ctx, "all");
         if h < 2 {
-            ctx.stats.sample(format!("history {} on {}{} with {} ops", h, kind, width, n));
+            ctx.stats.sample(format!("history {} on {}{} via {} with {} ops", h, kind, width, via, n));
         }
     }
     // the term-index-full boundary of the 16-bit stores, on each of s / p / o / g
@@ -574,15 +882,66 @@ pub fn generate(ctx: &mut GenCtx) {
             continue; // the heavily indexed variants take six times the memory/time: thorough only
         }
         let graph = kind.ends_with('G');
-        ctx.emit(&format!("new {} {}", kind, width));
-        ctx.stats.bump("history.index_full");
+        let t = |s: &str| T::Iri(format!("x:new{}", s));
+        let old = T::Iri("x:s".into());
+        let oldp = T::Iri("x:p".into());
+        let lit = |i: usize| T::Lit(i.to_string(), "x:fill".into());
+        let mk = |s: &T, p: &T, o: &T, gn: Option<&T>| Q { s: s.clone(), p: p.clone(), o: o.clone(), g: if graph { None } else { gn.cloned() } }.render();
+        let ga = if graph { "" } else { " GA" };
+
+        // (A) an index with NO room left: x:s, x:p + 65533 literals = 65535 terms = indices 0..=65534, and
+        // MAX = 65535 is never issued. Every outcome is determined by the property alone (a quad with a
+        // new term cannot be inserted, whatever the lookup order; nothing can leak), so all of it is oracle.
+        let via = *ctx.rng.pick(&["d", "r", "m"]);
+        ctx.emit(&format!("new {} {} {}", kind, width, via));
+        ctx.stats.bump("history.index_full_no_room");
+        ctx.emit("fill 65533 0");
+        ctx.emit("len");
+        ctx.emit(&format!("ins {}", mk(&t("1"), &old, &old, None))); // full at s
+        ctx.emit(&format!("ins {}", mk(&old, &t("1"), &old, None))); // full at p
+        ctx.emit(&format!("ins {}", mk(&old, &old, &t("1"), None))); // full at o
+        if !graph {
+            ctx.emit(&format!("ins {}", mk(&old, &old, &old, Some(&t("1"))))); // full at g
+            ctx.emit(&format!("ins {}", mk(&old, &old, &old, Some(&oldp)))); // known terms only: fits
+        }
+        ctx.emit(&format!("ins {}", mk(&old, &old, &old, None))); // known terms only: fits
+        ctx.emit(&format!("ins {}", mk(&lit(65532), &lit(0), &old, None))); // the last and the first index issued
+        ctx.emit(&format!("insall {} | {} | {}", mk(&oldp, &old, &old, None), mk(&old, &t("6"), &old, None), mk(&oldp, &oldp, &old, None))); // 1 ok then full
+        ctx.emit("len");
+        ctx.emit(&format!("has {}", mk(&lit(65532), &lit(0), &old, None)));
+        ctx.emit(&format!("has {}", mk(&t("1"), &old, &old, None)));
+        ctx.emit(&format!("rem {}", mk(&t("1"), &old, &old, None)));
+        ctx.emit(&format!("rem {}", mk(&old, &old, &old, None)));
+        ctx.emit(&format!("qm O {} A A{}", t("9").render(), ga)); // unknown constant
+        ctx.emit(&format!("qm O {} A O {}{}", lit(65532).render(), old.render(), ga)); // the last index issued, as a constant
+        ctx.emit(&format!("qm O {} O {} O {}{}", old.render(), oldp.render(), lit(17).render(), if graph { "" } else { " GO -" }));
+        if !graph {
+            ctx.emit(&format!("qm A A A GO {}", oldp.render())); // the one named graph
+            ctx.emit(&format!("qm A O {} A GN", old.render()));
+        }
+        ctx.emit(&format!("remm O {} A A{}", oldp.render(), ga));
+        ctx.emit("len");
+        // from_quad_source / from_triple_source of a source that exactly fits and of one that needs one
+        // term more (sink error, nothing kept)
+        ctx.stats.bump("history.collect_full");
+        ctx.emit(&format!("collectfill {} {} {} 65533", kind, width, via));
+        ctx.emit(&format!("ins {}", mk(&old, &old, &t("1"), None))); // full: no room for a single new term
+        ctx.emit(&format!("has {}", mk(&old, &oldp, &lit(65532), None)));
+        ctx.emit(&format!("collectfill {} {} {} 65534", kind, width, via));
+        ctx.emit("len");
+        ctx.emit(&format!("ins {}", mk(&old, &old, &t("1"), None))); // the fresh store accepts it
+        ctx.emit("all");
+
+        // (B) room for exactly 3 more terms, and insertions that need 4: the failing insertion leaves the
+        // terms looked up before the failing one in the index ("leak"). Which ones is the implementation's
+        // business, so after the first such failure the model's answers are compared as a pure
+        // model-vs-implementation tie (the driver drops its oracle fields).
+        let via = *ctx.rng.pick(&["d", "r", "m"]);
+        ctx.emit(&format!("new {} {} {}", kind, width, via));
+        ctx.stats.bump("history.index_full_leak");
         // x:s, x:p + 65530 literals = 65532 terms; MAX = 65535 ⇒ room for exactly 3 more terms
         ctx.emit("fill 65530 0");
         ctx.emit("len");
-        let t = |s: &str| T::Iri(format!("x:new{}", s));
-        let old = T::Iri("x:s".into());
-        let mk = |s: &T, p: &T, o: &T, gn: Option<&T>| Q { s: s.clone(), p: p.clone(), o: o.clone(), g: if graph { None } else { gn.cloned() } }.render();
-        // needs 4 new terms (s, p, o, g): fails at the 4th ensure_index, after 3 terms were added
         if graph {
             ctx.emit(&format!("ins {}", mk(&t("1"), &t("2"), &t("3"), None)));
             ctx.emit(&format!("ins {}", mk(&t("4"), &old, &old, None))); // full at s
@@ -599,10 +958,8 @@ pub fn generate(ctx: &mut GenCtx) {
         ctx.emit(&format!("has {}", mk(&t("1"), &t("2"), &t("3"), None)));
         ctx.emit(&format!("rem {}", mk(&t("1"), &t("2"), &t("3"), None)));
         ctx.emit(&format!("has {}", mk(&t("1"), &t("2"), &t("3"), None)));
-        // queries with an unknown constant, and with a known one, on the full index
-        ctx.emit(&format!("qm O {} A A{}", t("9").render(), if graph { "" } else { " GA" }));
-        ctx.emit(&format!("qm O {} O {} O {}{}", old.render(), T::Iri("x:p".into()).render(), T::Lit("17".into(), "x:fill".into()).render(), if graph { "" } else { " GO -" }));
-        ctx.emit(&format!("qm A A O {}{}", T::Lit("65529".into(), "x:fill".into()).render(), if graph { "" } else { " GA" }));
+        // a full scan of the full index
+        ctx.emit(&format!("qm A A O {}{}", lit(65529).render(), ga));
         ctx.emit("len");
     }
 }
